@@ -189,6 +189,9 @@ def main():
     meta = json.load(open(os.path.join(ROOT, "props_meta", pid + ".json")))
     work = os.path.join(ROOT, "work", pid)
     rundir = os.path.join(work, "run")
+    os.makedirs(work, exist_ok=True)
+    runlock = open(os.path.join(work, ".run.lock"), "w")   # one run per property at a time (they share work/<id>)
+    fcntl.flock(runlock, fcntl.LOCK_EX)
     shutil.rmtree(rundir, ignore_errors=True)
     os.makedirs(rundir, exist_ok=True)
     os.makedirs(os.path.join(ROOT, "evidence"), exist_ok=True)
